@@ -116,6 +116,138 @@ proof fn lemma_strip(n: nat, k: nat)
     lemma_fix_skip(n, k);
 }
 
+// ---------- spec-level strict decoder for strings and the canonicity lemmas (pure mathematics over the spec
+// vocabulary; they turn "output == Yellow-Paper encoding" into the statement's "a strict decoder accepts it,
+// consumes it completely and returns the original values") ----------
+pub open spec fn be_val(s: Seq<u8>) -> nat decreases s.len() {
+    if s.len() == 0 { 0 } else { be_val(s.drop_last()) * 256 + s.last() as nat }
+}
+/// strict decoder of one RLP *string* item at the head of `s`: Some((payload, rest)), or None when `s` does not start
+/// with a canonical string item (rejects: long form for n < 56, length bytes with a leading zero, a wrapped single
+/// byte < 0x80, truncated input, list headers)
+pub open spec fn dec_str(s: Seq<u8>) -> Option<(Seq<u8>, Seq<u8>)> {
+    if s.len() == 0 {
+        None
+    } else if s[0] < 0x80 {
+        Some((s.subrange(0, 1), s.subrange(1, s.len() as int)))
+    } else if s[0] <= 0xb7 {
+        let n = (s[0] - 0x80) as int;
+        if s.len() < 1 + n { None }
+        else if n == 1 && s[1] < 0x80 { None }
+        else { Some((s.subrange(1, 1 + n), s.subrange(1 + n, s.len() as int))) }
+    } else if s[0] <= 0xbf {
+        let ll = (s[0] - 0xb7) as int;
+        if s.len() < 1 + ll { None }
+        else {
+            let lb = s.subrange(1, 1 + ll);
+            let n = be_val(lb) as int;
+            if lb[0] == 0 || n < 56 || s.len() < 1 + ll + n { None }
+            else { Some((s.subrange(1 + ll, 1 + ll + n), s.subrange(1 + ll + n, s.len() as int))) }
+        }
+    } else {
+        None
+    }
+}
+/// strict integer decoding of a string payload: rejects a leading zero byte
+pub open spec fn dec_uint(p: Seq<u8>) -> Option<nat> {
+    if p.len() > 0 && p[0] == 0 { None } else { Some(be_val(p)) }
+}
+
+// L3: minimal big-endian bytes decode to the value and have no leading zero
+proof fn lemma_be_min_val(n: nat)
+    ensures be_val(be_min(n)) == n, n > 0 ==> be_min(n).len() > 0 && be_min(n)[0] != 0,
+    decreases n
+{
+    if n == 0 {
+    } else {
+        lemma_be_min_val(n / 256);
+        let m = be_min(n / 256);
+        let d = (n % 256) as u8;
+        assert(be_min(n) == m.push(d));
+        assert(m.push(d).drop_last() =~= m);
+        assert(m.push(d).last() == d);
+        if n / 256 > 0 {
+            assert(m.push(d)[0] == m[0]);
+        } else {
+            assert(m.len() == 0);
+            assert(n < 256);
+            assert(m.push(d)[0] == d);
+        }
+    }
+}
+// length of the minimal representation of a 64-bit length is at most 8
+proof fn lemma_be_min_len_le8(n: nat)
+    requires n <= usize::MAX
+    ensures be_min(n).len() <= 8
+{
+    lemma_len_vs_bits(n);
+    lemma_bitlen_le64(n);
+}
+// L4a: uint payloads never start with 0x00 and decode to the value
+proof fn lemma_uint_payload_canonical(v: nat)
+    ensures dec_uint(be_min(v)) == Some(v)
+{
+    lemma_be_min_val(v);
+}
+// L1 + L4b,c: the strict decoder accepts enc_str(b) followed by anything, returns exactly b and leaves exactly the rest
+proof fn lemma_dec_enc_str(b: Seq<u8>, r: Seq<u8>)
+    requires b.len() <= usize::MAX
+    ensures dec_str(enc_str(b) + r) == Some((b, r))
+{
+    let e = enc_str(b);
+    let s = e + r;
+    if b.len() == 1 && b[0] < 0x80 {
+        assert(e == b);
+        assert(s[0] == b[0]);
+        assert(s.subrange(0, 1) =~= b);
+        assert(s.subrange(1, s.len() as int) =~= r);
+    } else if b.len() < 56 {
+        let h = hdr(b.len(), 0x80);
+        assert(h.len() == 1);
+        assert(e == h + b);
+        assert(s[0] == (0x80 + b.len()) as u8);
+        let n = b.len() as int;
+        if n == 1 {
+            assert(s[1] == b[0]);
+        }
+        assert(s.subrange(1, 1 + n) =~= b);
+        assert(s.subrange(1 + n, s.len() as int) =~= r);
+    } else {
+        let l = be_min(b.len());
+        lemma_be_min_val(b.len());
+        lemma_be_min_len_le8(b.len());
+        let ll = l.len() as int;
+        assert(1 <= ll <= 8);
+        let h = hdr(b.len(), 0x80);
+        assert(h == seq![(0x80 + 55 + l.len()) as u8] + l);
+        assert(e == h + b);
+        assert(s[0] == (0xb7 + ll) as u8);
+        assert(s.subrange(1, 1 + ll) =~= l);
+        let n = b.len() as int;
+        assert(s.subrange(1 + ll, 1 + ll + n) =~= b);
+        assert(s.subrange(1 + ll + n, s.len() as int) =~= r);
+    }
+}
+// corollary: distinct byte strings never share an encoding (injectivity), and no encoding is a proper prefix of another
+proof fn lemma_enc_str_injective(a: Seq<u8>, b: Seq<u8>)
+    requires a.len() <= usize::MAX, b.len() <= usize::MAX, enc_str(a) == enc_str(b)
+    ensures a == b
+{
+    lemma_dec_enc_str(a, Seq::<u8>::empty());
+    lemma_dec_enc_str(b, Seq::<u8>::empty());
+}
+// corollary for integers: the full round trip value -> enc_uint -> strict decode -> value
+proof fn lemma_dec_enc_uint(v: nat, r: Seq<u8>)
+    requires v < pow2(256)
+    ensures
+        dec_str(enc_uint(v) + r) == Some((be_min(v), r)),
+        dec_uint(be_min(v)) == Some(v),
+{
+    lemma_strip(v, 32);
+    lemma_dec_enc_str(be_min(v), r);
+    lemma_be_min_val(v);
+}
+
 // ---------- dependency / std interface contracts (ASSUMED here; cross-checked on the real
 // usize / ethnum code by complete Kani harnesses xc_* in contracts/kani/src/transaction/rlp.rs) ----------
 #[verifier::external_body]
